@@ -23,6 +23,7 @@ FIXES = [
     ('2b4e2ef', 'C06', 'D15 operands inside parentheses'),
     ('8b7a4dd', 'C10', 'D16 flush before a process writes to the output file'),
     ('5780fb7', 'C10', 'D16b flush before a transforming process writes to the output file'),
+    ('4cc3a30', 'C17', 'D17 line-nums range resolved once for all cases of a suite'),
 ]
 
 
